@@ -28,7 +28,7 @@ def run(tier, seed):
     kernel.run_kernels(R, c01_table.kernels(wd, tg), witness=(tier != 'quick'))
     R.extra['table_isomorphism_units'] = len(tg)
     wit = [c for i, c in enumerate(cases) if tier == 'thorough' or i % 3 == 0]
-    report.run_parse_cases(R, cases, witness_for=wit, timeout=900 if tier == 'quick' else 2400, mem_gb=10 if tier == 'quick' else 24)
+    report.run_parse_cases(R, cases, witness_for=wit, timeout=1800 if tier == 'quick' else 3600, mem_gb=12 if tier == 'quick' else 24)
     R.outside = ['grammars outside the generated families', 'inputs longer than the stated LEN', 'whole table constructions on symbolic grammars (DESIGN 2.2)',
                  'token level: terms are custom_terms recognised by a one-byte custom lexer (generated lexer: C03/C04)']
     R.assumptions = ['token-level custom lexer maps byte a+k to term k', 'options: skip_whitespace=false', 'program dimension is a generated finite family']
